@@ -115,8 +115,18 @@ template<size_t N, unsigned PRE, unsigned PAD, unsigned PAD2, bool CMT, bool ALL
 HARNESS h_mc_col_n1() { column_case<1, 14, 0, 0, false, true>(); }
 HARNESS h_mc_col_n2() { column_case<2, 14, 0, 0, false, true>(); }
 HARNESS h_mc_col_n4() { column_case<4, 14, 0, 0, false, true>(); }
+HARNESS h_mc_col_n5() { column_case<5, 14, 0, 0, false, true>(); }
+HARNESS h_mc_col_n6() { column_case<6, 14, 0, 0, false, true>(); }
+HARNESS h_mc_col_n7() { column_case<7, 14, 0, 0, false, false>(); }
 HARNESS h_mc_col_n8() { column_case<8, 14, 0, 0, false, false>(); }
+HARNESS h_mc_col_n9() { column_case<9, 14, 0, 0, false, false>(); }
+HARNESS h_mc_col_n10() { column_case<10, 14, 0, 0, false, false>(); }
+HARNESS h_mc_col_n11() { column_case<11, 14, 0, 0, false, false>(); }
+HARNESS h_mc_col_n12() { column_case<12, 14, 0, 0, false, false>(); }
+HARNESS h_mc_col_n13() { column_case<13, 14, 0, 0, false, false>(); }
+HARNESS h_mc_col_n14() { column_case<14, 14, 0, 0, false, false>(); }
 HARNESS h_mc_col_n15() { column_case<15, 14, 0, 0, false, false>(); }
+HARNESS h_mc_col_n3() { column_case<3, 14, 0, 0, false, true>(); }
 HARNESS h_mc_col_n3c() { column_case<3, 14, 0, 0, true, true>(); }
 HARNESS h_mc_col_n0c() { column_case<0, 14, 0, 0, true, true>(); }
 HARNESS h_mc_col_n0() { column_case<0, 14, 0, 0, false, true>(); }
